@@ -265,7 +265,7 @@ impl VisitMut for Lower {
                 let c = Chain { source: Source::VecVal((*f.expr).clone()), adapters: vec![] };
                 Some(self.emit(&c, Sink::ForLoop((*f.pat).clone(), f.body.clone())))
             }
-            Expr::ForLoop(f) => parse_chain(&f.expr).filter(|c| !c.adapters.is_empty() || matches!(c.source, Source::IterMut(_) | Source::Iter(_) | Source::SliceRange(..))).map(|c| self.emit(&c, Sink::ForLoop((*f.pat).clone(), f.body.clone()))),
+            Expr::ForLoop(f) => parse_chain(&f.expr).filter(|c| !c.adapters.is_empty() || matches!(c.source, Source::IterMut(_) | Source::Iter(_) | Source::SliceRange(..) | Source::Range(..))).map(|c| self.emit(&c, Sink::ForLoop((*f.pat).clone(), f.body.clone()))),
             _ => None,
         };
         if let Some(r) = replacement { *e = r; }
